@@ -14,7 +14,7 @@ RULE = ('Hypothesis-generated cases of 1..4 molecules sharing ONE TAPS instance 
         'classes TAPSMolecule / TAPSNlaIIIMolecule / TAPSCHICMolecule, paired inward / overlapping / dove-tailed and '
         'single-end fragments, sequencing errors. methylation_call_dict, XM and the count tags after __finalise__ are '
         'compared with an independent caller (brute-force dove-safe vote + context from the reference string). '
-        'Non-trivial: the case has at least one converted and one unconverted call in at least 2 context classes.')
+        'Part deep: one molecule of 254..513 paired fragments whose per-position conversion counts sit next to 0, 256 and n. Non-trivial: the case has at least one converted and one unconverted call in at least 2 context classes.')
 ASSUMPTIONS = ['reads carry correct MD tags; reference handle is pysam.FastaFile over the generated FASTA',
                'fragments of a molecule share cell, UMI, R1 orientation and (NlaIII/scCHIC) the cut site',
                'context table as documented in TAPS.__init__: CG*=z, C[ACT]G=x, C[ACT][ACT]=h, upper case = converted']
@@ -141,6 +141,44 @@ def strategy():
                 m2['tid'] = 1 - m['tid']
                 mols[1] = m2
         return {'refs': refs, 'mols': mols}
+    return case()
+
+
+def deep_strategy():
+    """One very deep molecule (around 256 / 512 fragments) with per-position conversion counts next to the 8-bit boundaries."""
+    @st.composite
+    def case(draw):
+        L = draw(st.integers(60, 90))
+        seq = draw(st.lists(st.sampled_from('ACGTCG'), min_size=L, max_size=L))
+        ref = ''.join(seq)
+        n = draw(st.sampled_from([254, 255, 256, 257, 258, 300, 511, 512, 513]))
+        cls = draw(st.sampled_from(['plain', 'nla', 'chic']))
+        r1_rev = draw(st.booleans())
+        taps_strand = draw(st.sampled_from(['F', 'R']))
+        X = ('G' if r1_rev else 'C') if taps_strand == 'F' else ('C' if r1_rev else 'G')
+        ln = draw(st.integers(12, 24))
+        gap = draw(st.integers(0, 6))
+        s_left = draw(st.integers(0, L - (2 * ln + gap)))
+        left, right = [s_left, s_left + ln], [s_left + ln + gap, s_left + 2 * ln + gap]
+        s1e1, s2e2 = (left, right) if not r1_rev else (right, left)
+        conv = {}
+        for p in range(left[0], right[1]):
+            if ref[p] == X:
+                conv[p] = draw(st.sampled_from([0, 1, n - 257, n - 256, n - 255, 255, 256, 257, n // 2, n - 1, n]))
+        frags = []
+        for i in range(n):
+            reads = []
+            for s, e in (s1e1, s2e2):
+                sq = []
+                for p in range(s, e):
+                    b = ref[p]
+                    if p in conv and 0 <= i < max(0, min(n, conv[p])):
+                        b = 'T' if X == 'C' else 'A'
+                    sq.append(b)
+                reads.append({'pos': s, 'cigar': '%dM' % (e - s), 'seq': ''.join(sq), 'qual': [30] * (e - s)})
+            frags.append({'r1': reads[0], 'r2': reads[1]})
+        mol = {'tid': 0, 'cls': cls, 'r1_rev': r1_rev, 'taps_strand': taps_strand, 'X': X, 'frags': frags}
+        return {'refs': [ref, 'ACGT' * 15], 'mols': [mol], 'deep': True}
     return case()
 
 
@@ -312,6 +350,9 @@ def eval_case(case):
     out.violations = list(seen.items())
     classes_hit = {l.lower() for l in letters_seen}
     out.nontrivial = any(l.isupper() for l in letters_seen) and any(l.islower() for l in letters_seen) and len(classes_hit) >= 2
+    if case.get('deep'):
+        out.nontrivial = out.nontrivial and len(case['mols'][0]['frags']) >= 256
+        out.label('deep molecule: %d fragments' % len(case['mols'][0]['frags']))
     if len({m['tid'] for m in case['mols']}) == 2:
         out.label('two contigs share one TAPS instance')
     return out
@@ -319,4 +360,5 @@ def eval_case(case):
 
 def parts(tier):
     t = tier == 'thorough'
-    return [Part('molecules', eval_case, strategy=strategy, examples=120000 if t else 2400)]
+    return [Part('molecules', eval_case, strategy=strategy, examples=120000 if t else 2400),
+            Part('deep', eval_case, strategy=deep_strategy, examples=1500 if t else 32)]
